@@ -20,7 +20,9 @@ import (
 	"strings"
 	"sync"
 	"sync/atomic"
+	"syscall"
 	"time"
+	"unsafe"
 
 	"github.com/jech/galene/token"
 	"github.com/jech/galene/verifhook"
@@ -221,9 +223,58 @@ func child() {
 	os.Exit(0)
 }
 
+// fsWatch observes the directory of the token file through inotify: every instant at which the file name does not
+// exist is a possible crash state, whether or not a hook sits there.  Events are queued by the kernel inside the
+// system call that causes them, so after an operation has returned all of its events can be read.
+type fsWatch struct{ fd int }
+
+func newWatch(d string) *fsWatch {
+	fd, err := syscall.InotifyInit1(syscall.IN_NONBLOCK | syscall.IN_CLOEXEC)
+	if err != nil {
+		return nil
+	}
+	if _, err := syscall.InotifyAddWatch(fd, d, syscall.IN_DELETE|syscall.IN_MOVED_FROM|syscall.IN_MOVED_TO|syscall.IN_CREATE); err != nil {
+		syscall.Close(fd)
+		return nil
+	}
+	return &fsWatch{fd}
+}
+
+func (w *fsWatch) close() {
+	if w != nil {
+		syscall.Close(w.fd)
+	}
+}
+
+// drain returns how often the name `base` was unlinked or renamed away since the last call (-1: not observable)
+func (w *fsWatch) drain(base string) int {
+	if w == nil {
+		return -1
+	}
+	n := 0
+	buf := make([]byte, 64*1024)
+	for {
+		k, err := syscall.Read(w.fd, buf)
+		if k <= 0 || err != nil {
+			return n
+		}
+		for off := 0; off+syscall.SizeofInotifyEvent <= k; {
+			e := (*syscall.InotifyEvent)(unsafe.Pointer(&buf[off]))
+			name := strings.TrimRight(string(buf[off+syscall.SizeofInotifyEvent:off+syscall.SizeofInotifyEvent+int(e.Len)]), "\x00")
+			if name == base && e.Mask&(syscall.IN_DELETE|syscall.IN_MOVED_FROM) != 0 {
+				n++
+			}
+			off += syscall.SizeofInotifyEvent + int(e.Len)
+		}
+	}
+}
+
 func runBeh(tr *vt.Trace, b beh, kind string, n int) {
 	os.RemoveAll(dir)
 	os.MkdirAll(dir, 0700)
+	watch := newWatch(dir)
+	defer watch.close()
+	base := filepath.Base(fname)
 	token.SetStatefulFilename(fname)
 	tr.Emit(map[string]any{"ev": "New", "kind": kind, "id": n})
 	etags := map[string]string{}
@@ -252,11 +303,15 @@ func runBeh(tr *vt.Trace, b beh, kind string, n int) {
 				used = ""
 			}
 			tick()
+			watch.drain(base)
 			err := perform(k, t, v, used)
+			ev["unlinked"] = watch.drain(base)
 			ev["e"], ev["t"], ev["v"], ev["used"], ev["err"] = e, t, v, used, errClass(err)
 		case "expire":
 			tick()
+			watch.drain(base)
 			err := perform("expire", "", 0, "")
+			ev["unlinked"] = watch.drain(base)
 			ev["err"] = errClass(err)
 		case "external":
 			m := map[string]int{}
